@@ -699,6 +699,10 @@ func dequeFrontBackCase(c *mon.Case) {
 	r := c.Rng
 	rounds := 2000 + r.IntN(3000)
 	withPop := r.IntN(2) == 0
+	if r.IntN(3) == 0 {
+		dequeTwoFrontsCase(c, rounds)
+		return
+	}
 	for i := 0; i < rounds && !c.Violated(); i++ {
 		l := linkedlist.NewLinkedList[int]()
 		a, b, x := 3*i+1, 3*i+2, 3*i+3
@@ -771,6 +775,53 @@ func dequeFrontBackCase(c *mon.Case) {
 			c.Violate("linearizability", "deque-not-linearizable", "round %d: PushFront(%d) beside %s: draining gives %v, every order of the two concurrent calls gives %v", i, a, other, rest, want[0])
 		}
 		c.Count("front_vs_back_rounds", 1)
+	}
+	c.NonTrivial()
+}
+
+// dequeTwoFrontsCase: two PushFront calls race on a list of zero or one element; both elements are in front of the
+// old content afterwards, in one of the two orders.
+func dequeTwoFrontsCase(c *mon.Case, rounds int) {
+	for i := 0; i < rounds && !c.Violated(); i++ {
+		l := linkedlist.NewLinkedList[int]()
+		a, b, x := 3*i+1, 3*i+2, 3*i+3
+		withX := i%2 == 0
+		if withX {
+			l.Push(x)
+		}
+		var ready atomic.Int32
+		var wg sync.WaitGroup
+		wg.Add(2)
+		for _, v := range []int{a, b} {
+			v := v
+			go func() {
+				defer wg.Done()
+				ready.Add(1)
+				for ready.Load() < 2 {
+				}
+				l.PushFront(v)
+			}()
+		}
+		wg.Wait()
+		tail, tailOk := l.PeekTail()
+		var rest []int
+		for len(rest) <= 8 {
+			v, ok := l.Pop()
+			if !ok {
+				break
+			}
+			rest = append(rest, v)
+		}
+		w1, w2 := []int{a, b}, []int{b, a}
+		if withX {
+			w1, w2 = append(w1, x), append(w2, x)
+		}
+		if got := fmt.Sprint(rest); got != fmt.Sprint(w1) && got != fmt.Sprint(w2) {
+			c.Violate("linearizability", "deque-not-linearizable", "round %d: PushFront(%d) beside PushFront(%d) on a list holding %v: draining gives %v, the two orders give %v and %v", i, a, b, map[bool][]int{true: {x}, false: {}}[withX], rest, w1, w2)
+		} else if !tailOk || tail != rest[len(rest)-1] {
+			c.Violate("linearizability", "deque-not-linearizable", "round %d: after PushFront(%d) beside PushFront(%d), PeekTail returned (%d, %v) on a list that drains as %v", i, a, b, tail, tailOk, rest)
+		}
+		c.Count("two_fronts_rounds", 1)
 	}
 	c.NonTrivial()
 }
